@@ -9,6 +9,8 @@ value of their original) come from the harness.
 -/
 import Driver.Ops.Std
 import ZepidVerif.Model.Replicate
+import ZepidVerif.Gen.Snm
+import ZepidVerif.Gen.Transport
 namespace ZVD
 open ZV ZV.Std
 
@@ -62,8 +64,13 @@ def opC09 (a : Args) : Except String String := do
     let g ← need a "gen" parseBool
     let q1 : Array Rat ← vals a "q1"
     let q0 : Array Rat ← vals a "q0"
+    -- the definition regenerated from `GTransportFormula.fit`: weight column in use on the weighted data, none on the
+    -- replicated rows (`Props/C09_Transport.gtransport_fit_generated_replicate`)
+    let gw := Gen.gtransport_fit g true W (qFun q1 q0)
+    let gr := Gen.gtransport_fit g false R (qFun q1 q0)
     pure (showPairs [both "r1" (fun l => gtransport g l (qFun q1 q0) true),
-                     both "r0" (fun l => gtransport g l (qFun q1 q0) false)])
+                     both "r0" (fun l => gtransport g l (qFun q1 q0) false),
+                     ("grd", gw.1, gr.1), ("grr", gw.2, gr.2)])
   | "aipw" =>
     let q1 : Array Rat ← vals a "q1"
     let q0 : Array Rat ← vals a "q0"
@@ -84,7 +91,19 @@ def opC09 (a : Args) : Except String String := do
     let lhs := idx.flatMap fun j => idx.map fun k =>
       both s!"l{j}{k}" (fun l => snmLhs l (look om) (look pi) (look (vs.getD j #[])) (look (vs.getD k #[])))
     let rhs := idx.map fun j => both s!"r{j}" (fun l => snmRhs l (look om) (look pi) (look (vs.getD j #[])))
-    pure (showPairs (lhs ++ rhs ++ [both "psi1" (fun l => snmPsi1 l (look om) (look pi))]))
+    -- the `lhm` / `rha` regenerated from `_closed_form_solver_` with the weight column chosen by the regenerated lines
+    -- of `GEstimationSNM.fit`: IPMW x weight column on the weighted data, IPMW alone on the replicated rows
+    -- (`Props/C09_Snm.snm_generated_replicate`); rows = `df.dropna()` = outcome observed
+    let v : Nat → Row Rat → Rat := fun c r => look (vs.getD c #[]) r
+    let gl := fun (hasW : Bool) (l : List (Row Rat)) (j k : Nat) =>
+      Gen.snm_closed_lhm (fun r : Row Rat => r.an) (look pi) (fun r c => r.an * v c r) (fun r c => r.y * v c r)
+        (Gen.snm_fit_weight_col true hasW (fun r : Row Rat => r.w) (look om)) (l.filter fun r => r.obs) j k
+    let gr := fun (hasW : Bool) (l : List (Row Rat)) (j : Nat) =>
+      Gen.snm_closed_rha (fun r : Row Rat => r.an) (look pi) (fun r c => r.an * v c r) (fun r c => r.y * v c r)
+        (Gen.snm_fit_weight_col true hasW (fun r : Row Rat => r.w) (look om)) (l.filter fun r => r.obs) j
+    let glhs := idx.flatMap fun j => idx.map fun k => (s!"gl{j}{k}", gl true W j k, gl false R j k)
+    let grhs := idx.map fun j => (s!"gr{j}", gr true W j, gr false R j)
+    pure (showPairs (lhs ++ rhs ++ glhs ++ grhs ++ [both "psi1" (fun l => snmPsi1 l (look om) (look pi))]))
   | _ => throw "bad-arg:est"
 
 /-- persons from long-format rows sorted by (pid, time): `pid= t= h= k=` (k constant within a person) -/
